@@ -50,7 +50,8 @@ def in_domain(ant):
 
 
 def structure_class(ant, loads):
-    """classes of the known findings: unequal segment lengths / radii at a junction, insulated wires"""
+    """classes of the known findings: unequal segment lengths / radii at a junction, insulated wires, branching
+    junctions with segments longer than 1/15 wavelength"""
     segs = [np.linalg.norm(np.array(w['p1']) - np.array(w['p0'])) / w['nseg'] for w in ant['wires']]
     rads = [w['r'] for w in ant['wires']]
     cls = []
@@ -58,6 +59,14 @@ def structure_class(ant, loads):
         cls.append('junction-unequal-segments')
     if any(l[0] == 'coat' for l in loads):
         cls.append('insulated-wire')
+    # three or more wire ends meeting in one point with segments longer than 1/15 wavelength
+    ends = {}
+    for w in ant['wires']:
+        for e in ('p0', 'p1'):
+            k = tuple(round(float(x) / (1e-3 * min(segs)), 0) for x in w[e])
+            ends[k] = ends.get(k, 0) + 1
+    if max(ends.values()) >= 3 and max(segs) > ant['lam'] / 15:
+        cls.append('coarse-segments-at-branching-junction')
     return cls
 
 
